@@ -579,6 +579,29 @@ Section Model.
     cbn [layer_of d_media]. apply media_type_eqb.
   Qed.
 
+  (* ---- get_instances / get_solutions: the listing accessors ----
+     every layer of the kind in manifest order, each with ITS OWN descriptor (annotations) and the
+     decoding of its blob -- also when two layers hold the same bytes (they read the raw manifest:
+     no artifact-type check) *)
+  Definition list_kind (k : kind) (a : artifact) : option (list (descriptor * option msg)) :=
+    match collect (a_store a) (a_layers a) with
+    | None => None
+    | Some ls => Some (map (fun p => (fst p, decode k (snd p)))
+                           (filter (fun p => String.eqb (d_media (fst p)) (media_type k)) ls))
+    end.
+
+  Theorem list_kind_built ty ops k :
+    inj_on (stored_blobs ops) ->
+    list_kind k (build_with ty ops) =
+      Some (map (fun o => (layer_of o, decode k (o_blob o)))
+                (filter (fun o => kind_eqb (o_kind o) k) ops)).
+  Proof.
+    intro Hinj. unfold list_kind. rewrite build_store, build_layers.
+    rewrite (collect_built _ _ Hinj); [|intros o Ho; right; now apply in_map].
+    f_equal. rewrite filter_map_comm, map_map. cbn [fst snd].
+    f_equal. apply filter_ext. intro o. cbn [fst layer_of d_media]. apply media_type_eqb.
+  Qed.
+
   (* ---- annotation accessors ---- *)
   Hypothesis parse_render_time : forall t, parse_time (render_time t) = Some t.
 
@@ -677,6 +700,7 @@ Arguments get_manifest {blob dg}.
 Arguments get_layer_descriptors {blob dg}.
 Arguments get_layer {blob dg}.
 Arguments get_as {blob msg dg}.
+Arguments list_kind {blob msg dg}.
 Arguments stored_blobs {blob msg}.
 Arguments inj_on {blob dg}.
 Arguments wf_op {blob msg}.
